@@ -109,6 +109,10 @@ type c10Cloud struct {
 	closed0  map[string]bool
 	orderTmo bool
 
+	// "the n-th Delete/Detach call of the history fails" (1-based), cleared before settling
+	nthFail map[string]bool
+	kindSeq map[string]int
+
 	// monitor, called at call time (before fault and effect) for Detach and Delete
 	onPull func(kind, eni string)
 	// one-shot action executed inside the first slot-0 mutating call of the step
@@ -125,6 +129,7 @@ func c10NewCloud(dual bool, createAge time.Duration) *c10Cloud {
 	return &c10Cloud{
 		enis: map[string]*c10ENI{}, dual: dual, createAge: createAge,
 		done0: map[string]chan struct{}{}, closed0: map[string]bool{},
+		nthFail: map[string]bool{}, kindSeq: map[string]int{},
 		deleteInjected: map[string]bool{}, deleteInjStep: map[int]bool{}, deleteTried: map[string]bool{},
 	}
 }
@@ -248,6 +253,13 @@ func (c *c10Cloud) enter(kind, eni string, slot int) (injected bool, leave func(
 	}
 	c.mu.Lock()
 	injected = c.fail&c10CFBit(kind, slot) != 0
+	if kind == "Delete" || kind == "Detach" {
+		// these calls are issued from sequential loops, so their ordinal is deterministic
+		c.kindSeq[kind]++
+		if c.nthFail[fmt.Sprintf("%s/%d", kind, c.kindSeq[kind])] {
+			injected = true
+		}
+	}
 	c.mu.Unlock()
 	return injected, leave
 }
